@@ -26,7 +26,7 @@ type dynRes struct {
 	Remote bool
 	URI    string // absolute base
 	IDText string // $id as written (embedded) or "" (remote, identified by retrieval URI)
-	Anchor int    // 0 none, 1 $anchor a, 2 $dynamicAnchor a
+	Anchor [2]int // per anchor name (a, b): 0 none, 1 $anchor, 2 $dynamicAnchor
 	Marker string
 	Hop    string // how it reaches the next resource
 	Next   *dynRes
@@ -39,10 +39,11 @@ type dynWorld struct {
 	Res     []*dynRes // all resources except root
 	Paths   [2][]*dynRes
 	Final   *dynRes
-	RefForm string // "frag", "resource", "pointer"
-	RefText string
-	Static  *dynRes
-	Dynamic bool // the final reference acts dynamically
+	Names   int        // 1: only anchor name a is used; 2: the final resource has a $dynamicRef for a and one for b
+	RefForm [2]string  // "frag", "resource", "pointer"
+	RefText [2]string
+	Static  [2]*dynRes
+	Dynamic [2]bool // the final reference acts dynamically
 	RootDoc string
 	Docs    map[string]string // remote documents by URI
 	Fanout  bool              // the root sends property A down chain A and property B down chain B in ONE call
@@ -53,15 +54,35 @@ type dynWorld struct {
 
 const dynRootURI = "http://d.test/s/root.json"
 
-func markerSchema(r *dynRes) map[string]any {
-	m := map[string]any{"properties": map[string]any{"t": map[string]any{"const": r.Marker}}}
-	switch r.Anchor {
+var anchorNames = [2]string{"a", "b"}
+var markerProps = [2]string{"t", "u"}
+
+// marker of resource r for anchor name ni.
+func (r *dynRes) marker(ni int) string {
+	if ni == 0 {
+		return r.Marker
+	}
+	return "U" + r.Marker[1:]
+}
+
+func markerSchemaN(r *dynRes, ni int) map[string]any {
+	m := map[string]any{"properties": map[string]any{markerProps[ni]: map[string]any{"const": r.marker(ni)}}}
+	switch r.Anchor[ni] {
 	case 1:
-		m["$anchor"] = "a"
+		m["$anchor"] = anchorNames[ni]
 	case 2:
-		m["$dynamicAnchor"] = "a"
+		m["$dynamicAnchor"] = anchorNames[ni]
 	}
 	return m
+}
+
+// markerDefs renders $defs/a (and $defs/b in two-name worlds) of a resource.
+func (w *dynWorld) markerDefs(r *dynRes) map[string]any {
+	d := map[string]any{}
+	for ni := 0; ni < w.Names; ni++ {
+		d[anchorNames[ni]] = markerSchemaN(r, ni)
+	}
+	return d
 }
 
 func refTo(c *Ctx, from, to *dynRes) string {
@@ -92,10 +113,18 @@ func genDynWorld(c *Ctx) *dynWorld { return genDynWorldOpt(c, false) }
 func genDynWorldOpt(c *Ctx, fanout bool) *dynWorld {
 	w := &dynWorld{Docs: map[string]string{}}
 	w.Fanout = c.W(3) == 0 || fanout
-	w.Root = &dynRes{Name: "root", URI: dynRootURI, Marker: "T_root", Anchor: []int{0, 0, 1, 2}[c.W(4)]}
+	w.Names = 1 + c.W(2)
+	anchorChoice := func(pool []int) [2]int {
+		var a [2]int
+		for ni := 0; ni < w.Names; ni++ {
+			a[ni] = pool[c.W(len(pool))]
+		}
+		return a
+	}
+	w.Root = &dynRes{Name: "root", URI: dynRootURI, Marker: "T_root", Anchor: anchorChoice([]int{0, 0, 1, 2})}
 	n := 1 + c.W(5) // resources besides root (incl. final)
 	for i := 0; i < n; i++ {
-		r := &dynRes{Idx: i, Name: fmt.Sprintf("r%d", i), Marker: fmt.Sprintf("T_%d", i), Anchor: []int{0, 1, 2, 2}[c.W(4)]}
+		r := &dynRes{Idx: i, Name: fmt.Sprintf("r%d", i), Marker: fmt.Sprintf("T_%d", i), Anchor: anchorChoice([]int{0, 1, 2, 2})}
 		r.Entry = []string{"", "", "#/$defs/entry", "#ent"}[c.W(4)]
 		switch c.W(4) {
 		case 0, 1:
@@ -171,36 +200,39 @@ func genDynWorldOpt(c *Ctx, fanout bool) *dynWorld {
 		w.Paths[1] = append(b, w.Final)
 		w.Permuted = true
 	}
-	// Final $dynamicRef.
-	var anchored []*dynRes
-	for _, r := range append([]*dynRes{w.Root}, w.Res...) {
-		if r.Anchor != 0 && (!w.Final.Remote || r.Remote || r == w.Root) {
-			anchored = append(anchored, r)
+	// Final $dynamicRef(s), one per anchor name in use.
+	for ni := 0; ni < w.Names; ni++ {
+		var anchored []*dynRes
+		for _, r := range append([]*dynRes{w.Root}, w.Res...) {
+			if r.Anchor[ni] != 0 && (!w.Final.Remote || r.Remote || r == w.Root) {
+				anchored = append(anchored, r)
+			}
 		}
-	}
-	form := c.W(3)
-	if form == 0 && w.Final.Anchor == 0 {
-		w.Final.Anchor = 1 + c.W(2) // "#a" needs an anchor a in the final resource (bookend)
-		anchored = append(anchored, w.Final)
-	}
-	if form == 1 && len(anchored) == 0 {
-		form = 2
-	}
-	switch form {
-	case 0:
-		w.RefForm, w.RefText, w.Static = "frag", "#a", w.Final
-		w.Dynamic = w.Final.Anchor == 2
-	case 1:
-		x := anchored[c.W(len(anchored))]
-		w.RefForm, w.Static = "resource", x
-		w.RefText = refTo(c, w.Final, x) + "#a"
-		if x == w.Final && c.W(2) == 0 {
-			w.RefText = "#a"
+		form := c.W(3)
+		if form == 0 && w.Final.Anchor[ni] == 0 {
+			w.Final.Anchor[ni] = 1 + c.W(2) // "#a" needs an anchor a in the final resource (bookend)
+			anchored = append(anchored, w.Final)
 		}
-		w.Dynamic = x.Anchor == 2
-	case 2:
-		w.RefForm, w.RefText, w.Static = "pointer", "#/$defs/a", w.Final
-		w.Dynamic = false
+		if form == 1 && len(anchored) == 0 {
+			form = 2
+		}
+		name := anchorNames[ni]
+		switch form {
+		case 0:
+			w.RefForm[ni], w.RefText[ni], w.Static[ni] = "frag", "#"+name, w.Final
+			w.Dynamic[ni] = w.Final.Anchor[ni] == 2
+		case 1:
+			x := anchored[c.W(len(anchored))]
+			w.RefForm[ni], w.Static[ni] = "resource", x
+			w.RefText[ni] = refTo(c, w.Final, x) + "#" + name
+			if x == w.Final && c.W(2) == 0 {
+				w.RefText[ni] = "#" + name
+			}
+			w.Dynamic[ni] = x.Anchor[ni] == 2
+		case 2:
+			w.RefForm[ni], w.RefText[ni], w.Static[ni] = "pointer", "#/$defs/"+name, w.Final
+			w.Dynamic[ni] = false
+		}
 	}
 	// A detour: entered through a failing anyOf branch and left again before the chain continues.
 	if c.W(2) == 0 {
@@ -214,7 +246,10 @@ func genDynWorldOpt(c *Ctx, fanout bool) *dynWorld {
 			}
 		}
 		w.DetAt = holders[c.W(len(holders))]
-		d := &dynRes{Idx: 90, Name: "det", Marker: "T_det", Anchor: 2}
+		d := &dynRes{Idx: 90, Name: "det", Marker: "T_det"}
+		for ni := 0; ni < w.Names; ni++ {
+			d.Anchor[ni] = 2
+		}
 		if w.DetAt.Remote || c.W(2) == 0 {
 			d.Remote = true
 			d.URI = "http://d.test/s/det.json"
@@ -223,7 +258,7 @@ func genDynWorldOpt(c *Ctx, fanout bool) *dynWorld {
 			d.URI = "http://d.test/s/det-emb.json"
 		}
 		w.Detour = d
-		db := map[string]any{"not": map[string]any{}, "$defs": map[string]any{"a": markerSchema(d)}}
+		db := map[string]any{"not": map[string]any{}, "$defs": w.markerDefs(d)}
 		if d.IDText != "" {
 			db["$id"] = d.IDText
 		}
@@ -241,7 +276,7 @@ func genDynWorldOpt(c *Ctx, fanout bool) *dynWorld {
 		return nil
 	}
 	build := func(r *dynRes) {
-		defs := map[string]any{"a": markerSchema(r)}
+		defs := w.markerDefs(r)
 		root := map[string]any{"$defs": defs}
 		if r.IDText != "" {
 			root["$id"] = r.IDText
@@ -308,10 +343,14 @@ func genDynWorldOpt(c *Ctx, fanout bool) *dynWorld {
 	for _, r := range w.Res {
 		build(r)
 	}
+	holder := w.Final.Body
 	if w.Final.Entry != "" {
-		w.Final.Body["$defs"].(map[string]any)["entry"].(map[string]any)["$dynamicRef"] = w.RefText
+		holder = w.Final.Body["$defs"].(map[string]any)["entry"].(map[string]any)
+	}
+	if w.Names == 1 {
+		holder["$dynamicRef"] = w.RefText[0]
 	} else {
-		w.Final.Body["$dynamicRef"] = w.RefText
+		holder["allOf"] = []any{map[string]any{"$dynamicRef": w.RefText[0]}, map[string]any{"$dynamicRef": w.RefText[1]}}
 	}
 	// Root document.
 	root := map[string]any{
@@ -342,7 +381,7 @@ func genDynWorldOpt(c *Ctx, fanout bool) *dynWorld {
 			root["else"] = wrap(root["else"])
 		}
 	}
-	defs := map[string]any{"a": markerSchema(w.Root)}
+	defs := w.markerDefs(w.Root)
 	if w.Detour != nil {
 		if w.Detour.Remote {
 			w.Docs[w.Detour.URI] = JSON(w.Detour.Body)
@@ -364,16 +403,27 @@ func genDynWorldOpt(c *Ctx, fanout bool) *dynWorld {
 
 // expected returns the marker of the schema the final $dynamicRef must use when
 // the evaluation went down chain p.
-func (w *dynWorld) expected(p int) string {
-	if !w.Dynamic {
-		return w.Static.Marker
+func (w *dynWorld) expected(p int) string { return w.expectedN(p, 0) }
+
+func (w *dynWorld) expectedAll(p int) []string {
+	var out []string
+	for ni := 0; ni < w.Names; ni++ {
+		out = append(out, w.expectedN(p, ni))
+	}
+	return out
+}
+
+// expectedN is the model for anchor name ni.
+func (w *dynWorld) expectedN(p, ni int) string {
+	if !w.Dynamic[ni] {
+		return w.Static[ni].marker(ni)
 	}
 	for _, r := range append([]*dynRes{w.Root}, w.Paths[p]...) {
-		if r.Anchor == 2 {
-			return r.Marker
+		if r.Anchor[ni] == 2 {
+			return r.marker(ni)
 		}
 	}
-	return w.Static.Marker // no resource in the dynamic scope declares the anchor: the initial target stands
+	return w.Static[ni].marker(ni) // no resource in the dynamic scope declares the anchor: the initial target stands
 }
 
 func (w *dynWorld) loader() jsonschema.Loader {
@@ -409,32 +459,53 @@ type dynCall struct {
 	Note  string
 }
 
+// markersFor draws the marker properties (t, and u in two-name worlds) of a probe that goes down
+// chain p, and reports whether the model accepts them.
+func (w *dynWorld) markersFor(c *Ctx, p int, dst map[string]any) (valid bool, note string) {
+	valid = true
+	for ni := 0; ni < w.Names; ni++ {
+		exp := w.expectedN(p, ni)
+		switch c.W(6) {
+		case 0: // absent
+		case 1, 2, 3:
+			dst[markerProps[ni]] = exp
+		default:
+			pool := []string{"T_root", "ZZ", w.Final.Marker}
+			for _, r := range w.Res {
+				pool = append(pool, r.Marker)
+			}
+			m := pick(c, pool)
+			if ni == 1 && m != "ZZ" {
+				m = "U" + m[1:]
+			}
+			dst[markerProps[ni]] = m
+			if m != exp {
+				valid = false
+			}
+			note += markerProps[ni] + "=" + m + " "
+		}
+	}
+	return
+}
+
 func (w *dynWorld) history(c *Ctx) []dynCall {
 	n := 6 + c.W(11)
 	var out []dynCall
-	markers := []string{"T_root", "ZZ"}
-	for _, r := range w.Res {
-		markers = append(markers, r.Marker)
-	}
 	for i := 0; i < n && w.Fanout; i++ {
 		inst := map[string]any{}
 		valid := true
 		note := ""
 		for p, key := range []string{"A", "B"} {
-			exp := w.expected(p)
 			switch c.W(6) {
 			case 0: // absent
 			case 1:
 				inst[key] = pick(c, []any{"str", 5.0, nil})
-			case 2, 3:
-				inst[key] = map[string]any{"p": key, "t": exp}
 			default:
-				m := pick(c, markers)
-				inst[key] = map[string]any{"p": key, "t": m}
-				if m != exp {
-					valid = false
-				}
-				note += key + "=" + m + " "
+				sub := map[string]any{"p": key}
+				v, nt := w.markersFor(c, p, sub)
+				inst[key] = sub
+				valid = valid && v
+				note += key + ":" + nt
 			}
 		}
 		out = append(out, dynCall{Inst: inst, Path: c.W(2), Valid: valid, Note: "fan-out " + note})
@@ -445,17 +516,13 @@ func (w *dynWorld) history(c *Ctx) []dynCall {
 		if p == 1 {
 			pv = pick(c, []string{"B", "C"})
 		}
-		exp := w.expected(p)
 		switch c.W(8) {
 		case 0:
 			out = append(out, dynCall{Inst: pick(c, []any{"str", 5.0, nil, []any{}}), Path: 1, Valid: true, Note: "non-object"})
-		case 1:
-			out = append(out, dynCall{Inst: map[string]any{"p": pv}, Path: p, Valid: true, Note: "no marker"})
-		case 2, 3, 4:
-			out = append(out, dynCall{Inst: map[string]any{"p": pv, "t": exp}, Path: p, Valid: true, Note: "right marker"})
 		default:
-			m := pick(c, markers)
-			out = append(out, dynCall{Inst: map[string]any{"p": pv, "t": m}, Path: p, Valid: m == exp, Note: "marker " + m})
+			inst := map[string]any{"p": pv}
+			v, nt := w.markersFor(c, p, inst)
+			out = append(out, dynCall{Inst: inst, Path: p, Valid: v, Note: nt})
 		}
 	}
 	return out
@@ -465,7 +532,7 @@ func (w *dynWorld) describe() map[string]any {
 	paths := [2][]string{}
 	for p := 0; p < 2; p++ {
 		for _, r := range w.Paths[p] {
-			paths[p] = append(paths[p], fmt.Sprintf("%s(%s,%s,hop=%s,entered-at=%q)", r.Name, []string{"-", "anchor", "dynamicAnchor"}[r.Anchor], map[bool]string{true: "remote", false: "embedded"}[r.Remote], r.Hop, r.Entry))
+			paths[p] = append(paths[p], fmt.Sprintf("%s(%s,%s,hop=%s,entered-at=%q)", r.Name, fmt.Sprint(r.Anchor), map[bool]string{true: "remote", false: "embedded"}[r.Remote], r.Hop, r.Entry))
 		}
 	}
 	docs := map[string]any{}
@@ -473,8 +540,8 @@ func (w *dynWorld) describe() map[string]any {
 		docs[k] = json.RawMessage(v)
 	}
 	return map[string]any{"root": json.RawMessage(w.RootDoc), "remote_documents": docs, "chainA": paths[0], "chainB": paths[1],
-		"root_anchor": w.Root.Anchor, "fan_out": w.Fanout, "permuted_chains": w.Permuted, "final_dynamicRef": w.RefText, "form": w.RefForm, "static_target": w.Static.Name, "acts_dynamically": w.Dynamic,
-		"expectedA": w.expected(0), "expectedB": w.expected(1), "detour_at": func() string {
+		"root_anchor": w.Root.Anchor, "fan_out": w.Fanout, "permuted_chains": w.Permuted, "anchor_names": w.Names, "final_dynamicRef": w.RefText[:w.Names], "form": w.RefForm[:w.Names], "acts_dynamically": w.Dynamic[:w.Names],
+		"expectedA": w.expectedAll(0), "expectedB": w.expectedAll(1), "detour_at": func() string {
 			if w.DetAt == nil {
 				return ""
 			}
@@ -517,7 +584,10 @@ func driveC06(c *Ctx) {
 			if (verr == nil) != call.Valid {
 				// Is it the history or the topology? Ask a fresh Resolved.
 				fres, ferr, fr := w.resolve(c)
-				oracle, site := "C06/target", w.RefForm
+				oracle, site := "C06/target", w.RefForm[0]
+				if w.Names == 2 {
+					site += "+" + w.RefForm[1]
+				}
 				if !fr.Panicked && ferr == nil {
 					var fv error
 					Op(func() { fv = fres.Validate(call.Inst) })
@@ -525,15 +595,18 @@ func driveC06(c *Ctx) {
 						oracle, site = "C06/history", "scope-leak"
 					}
 				}
-				c.Fail(oracle, site, "schedule %d call %d: Validate(%s) valid=%v, the model says %v (chain %s, $dynamicRef %q form %s, static target %s, acts dynamically=%v, expected marker %s); error: %v",
-					si, hi, JSON(call.Inst), verr == nil, call.Valid, "AB"[call.Path:call.Path+1], w.RefText, w.RefForm, w.Static.Name, w.Dynamic, w.expected(call.Path), verr)
+				c.Fail(oracle, site, "schedule %d call %d: Validate(%s) valid=%v, the model says %v (chain %s, $dynamicRef %q form %v, acts dynamically=%v, expected markers on this chain %v); error: %v",
+					si, hi, JSON(call.Inst), verr == nil, call.Valid, "AB"[call.Path:call.Path+1], w.RefText[:w.Names], w.RefForm[:w.Names], w.Dynamic[:w.Names],
+					w.expectedAll(call.Path), verr)
 				break
 			}
-			if w.Dynamic && w.expected(call.Path) != w.Static.Marker && prevPath >= 0 && prevPath != call.Path {
-				nontrivial = true
-			}
-			if w.Fanout && w.Dynamic && w.expected(0) != w.expected(1) {
-				nontrivial = true
+			for ni := 0; ni < w.Names; ni++ {
+				if w.Dynamic[ni] && w.expectedN(call.Path, ni) != w.Static[ni].marker(ni) && prevPath >= 0 && prevPath != call.Path {
+					nontrivial = true
+				}
+				if w.Fanout && w.Dynamic[ni] && w.expectedN(0, ni) != w.expectedN(1, ni) {
+					nontrivial = true
+				}
 			}
 			prevPath = call.Path
 		}
@@ -541,12 +614,22 @@ func driveC06(c *Ctx) {
 	st := simrt.GetStats()
 	c.Distinct("%x", st.OrderHash)
 	c.Nontrivial = nontrivial
-	c.Probe("ref-form:" + w.RefForm)
-	if w.Dynamic {
-		c.Probe("acts-dynamically")
-		if w.expected(0) != w.expected(1) {
-			c.Probe("chains-disagree-on-target")
+	disagree := false
+	for ni := 0; ni < w.Names; ni++ {
+		c.Probe("ref-form:" + w.RefForm[ni])
+		if w.Dynamic[ni] {
+			c.Probe("acts-dynamically")
+			if w.expectedN(0, ni) != w.expectedN(1, ni) {
+				c.Probe("chains-disagree-on-target")
+				disagree = true
+			}
 		}
+		if st := w.Static[ni]; st != w.Final && !contains(w.Paths[0], st) && !contains(w.Paths[1], st) && st != w.Root {
+			c.Probe("static-target-off-path")
+		}
+	}
+	if w.Names == 2 {
+		c.Probe("two-anchor-names")
 	}
 	if len(w.Docs) > 0 {
 		c.Probe("loader-supplied-resources")
@@ -559,7 +642,7 @@ func driveC06(c *Ctx) {
 	}
 	if w.Permuted {
 		c.Probe("permuted-chains")
-		if w.Dynamic && w.expected(0) != w.expected(1) {
+		if disagree {
 			c.Probe("permuted-chains-disagree-on-target")
 		}
 	}
@@ -568,9 +651,6 @@ func driveC06(c *Ctx) {
 			c.Probe("resource-entered-at-subschema")
 			break
 		}
-	}
-	if w.Static != w.Final && !contains(w.Paths[0], w.Static) && !contains(w.Paths[1], w.Static) && w.Static != w.Root {
-		c.Probe("static-target-off-path")
 	}
 	if c.logOn {
 		c.Sample = map[string]any{"world": w.describe(), "history": hist}
